@@ -232,30 +232,50 @@ theorem strGet_refines (s : Str) (i : Int) : Impl.strGet s i = Spec.strGet s i :
 
 /-! ### list.map -/
 
-theorem mapPtrs_no_ptr (cb : Cb) (hcb : cb ≠ .idx) (last : Int) (i : Nat) (xs : List Val) :
-    (mapPtrs cb i xs).map (fun p => match p with | some v => v | none => Val.int last) = Spec.mapIdxFrom cb i xs := by
-  induction xs generalizing i with
-  | nil => simp [mapPtrs, Spec.mapIdxFrom]
+/-- the loop appends, to what it has collected so far, the reference result of the rest -/
+theorem mapLoop_eq (cb : Cb) (i : Nat) (xs acc : List Val) :
+    mapLoop cb i xs acc = acc ++ Spec.mapIdxFrom cb i xs := by
+  induction xs generalizing i acc with
+  | nil => simp [mapLoop, Spec.mapIdxFrom]
   | cons x xs ih =>
-    simp only [mapPtrs, Spec.mapIdxFrom, List.map_cons, ih]
+    simp only [mapLoop, Spec.mapIdxFrom, ih, List.append_assoc, List.cons_append, List.nil_append]
+    cases cb <;> rfl
+
+/-- **`list.map` refines the reference map, for EVERY callback shape** (the index-returning
+    one included: since the repair each call gets an index object of its own) -/
+theorem mapIdx_refines (cb : Cb) (xs : List Val) : Impl.mapIdx cb xs = Spec.mapIdx cb xs := by
+  unfold Impl.mapIdx Spec.mapIdx
+  rw [mapLoop_eq]; rfl
+
+/-! #### historical: the shared index object of the code before the repair -/
+
+/-- callbacks that did not let the index object escape were right before the repair too -/
+theorem preFixMapPtrs_no_ptr (cb : Cb) (hcb : cb ≠ .idx) (last : Int) (i : Nat) (xs : List Val) :
+    (preFixMapPtrs cb i xs).map (fun p => match p with | some v => v | none => Val.int last) = Spec.mapIdxFrom cb i xs := by
+  induction xs generalizing i with
+  | nil => simp [preFixMapPtrs, Spec.mapIdxFrom]
+  | cons x xs ih =>
+    simp only [preFixMapPtrs, Spec.mapIdxFrom, List.map_cons, ih]
     cases cb <;> simp_all
 
-theorem mapIdx_refines (cb : Cb) (hcb : cb ≠ .idx) (xs : List Val) : Impl.mapIdx cb xs = Spec.mapIdx cb xs := by
-  unfold Impl.mapIdx Spec.mapIdx
-  exact mapPtrs_no_ptr cb hcb _ 0 xs
+theorem preFixMapIdx_refines (cb : Cb) (hcb : cb ≠ .idx) (xs : List Val) :
+    Impl.preFixMapIdx cb xs = Spec.mapIdx cb xs := by
+  unfold Impl.preFixMapIdx Spec.mapIdx
+  exact preFixMapPtrs_no_ptr cb hcb _ 0 xs
 
-theorem mapPtrs_idx (last : Int) (i : Nat) (xs : List Val) :
-    (mapPtrs .idx i xs).map (fun p => match p with | some v => v | none => Val.int last)
+theorem preFixMapPtrs_idx (last : Int) (i : Nat) (xs : List Val) :
+    (preFixMapPtrs .idx i xs).map (fun p => match p with | some v => v | none => Val.int last)
       = List.replicate xs.length (Val.int last) := by
   induction xs generalizing i with
-  | nil => simp [mapPtrs]
-  | cons x xs ih => simp [mapPtrs, ih, List.replicate_succ]
+  | nil => simp [preFixMapPtrs]
+  | cons x xs ih => simp [preFixMapPtrs, ih, List.replicate_succ]
 
-/-- what today's code returns for `xs.map(func(i, x) { return i })`: n copies of n-1 -/
-theorem mapIdx_idx (xs : List Val) :
-    Impl.mapIdx .idx xs = List.replicate xs.length (Val.int ((xs.length : Int) - 1)) := by
-  unfold Impl.mapIdx
-  exact mapPtrs_idx _ 0 xs
+/-- what the code before the repair returned for `xs.map(func(i, x) { return i })`:
+    n copies of n-1 -/
+theorem preFixMapIdx_idx (xs : List Val) :
+    Impl.preFixMapIdx .idx xs = List.replicate xs.length (Val.int ((xs.length : Int) - 1)) := by
+  unfold Impl.preFixMapIdx
+  exact preFixMapPtrs_idx _ 0 xs
 
 /-! ### sort keeps every element (also when a comparison fails or panics) -/
 
